@@ -36,9 +36,12 @@ pub enum Host {
     VecOf,
     MapOf,
     Tuple,
+    /// several records one after the other in one byte stream (JSON lines), read with serde_json's StreamDeserializer
+    Stream,
 }
 
-pub const HOSTS: [Host; 8] = [Host::Bare, Host::Flatten, Host::Untagged, Host::Tagged, Host::Opt, Host::VecOf, Host::MapOf, Host::Tuple];
+pub const HOSTS: [Host; 9] =
+    [Host::Bare, Host::Flatten, Host::Untagged, Host::Tagged, Host::Opt, Host::VecOf, Host::MapOf, Host::Tuple, Host::Stream];
 
 impl Host {
     pub fn name(self) -> &'static str {
@@ -51,6 +54,7 @@ impl Host {
             Host::VecOf => "vec",
             Host::MapOf => "btreemap",
             Host::Tuple => "tuple",
+            Host::Stream => "stream",
         }
     }
 }
@@ -92,6 +96,7 @@ fn host_to_string<T: Serialize + Copy>(h: Host, v: T, w: T) -> serde_json::Resul
             serde_json::to_string(&m)
         }
         Host::Tuple => serde_json::to_string(&(v, w)),
+        Host::Stream => Ok(format!("{}\n{}\n", serde_json::to_string(&v)?, serde_json::to_string(&w)?)),
     }
 }
 
@@ -115,6 +120,7 @@ fn host_from<'de, T: Deserialize<'de>, D: serde::Deserializer<'de>>(h: Host, d: 
             let (a, b) = <(T, T)>::deserialize(d)?;
             vec![a, b]
         }
+        Host::Stream => unreachable!("streams are read by read_as"),
     })
 }
 
@@ -366,6 +372,11 @@ pub fn execute_write(c: &JsonWriteCase) -> LegReport {
         }
     }
 
+    // the same value through a second real format (TOML)
+    if r0.is_ok() {
+        crate::tomlleg::roundtrip(c.hi, c.lo, &mut rep);
+    }
+
     if c.plan.is_faulty() {
         rep.faulted = true;
         let mut w = SimWriter::new(&c.plan);
@@ -415,7 +426,7 @@ pub fn execute_write(c: &JsonWriteCase) -> LegReport {
                 }
                 if r0.is_ok() && !w0.data.starts_with(&w.data) {
                     rep.violations.push(viol(
-                        "FMT_GARBAGE_PREFIX",
+                        "SER_GARBAGE_PREFIX",
                         format!("bytes received {:?} are not a prefix of {:?}", String::from_utf8_lossy(&w.data), String::from_utf8_lossy(&w0.data)),
                     ));
                 }
@@ -629,8 +640,12 @@ pub struct JsonReadCase {
 }
 
 pub fn derive_bytes(c: &JsonReadCase) -> Vec<u8> {
-    let mut b = c.base.as_bytes().to_vec();
-    for f in &c.faults {
+    apply_byte_faults(c.base.as_bytes(), &c.faults)
+}
+
+pub fn apply_byte_faults(base: &[u8], faults: &[ByteFault]) -> Vec<u8> {
+    let mut b = base.to_vec();
+    for f in faults {
         match f {
             ByteFault::Truncate { len } => b.truncate(*len),
             ByteFault::BitFlip { offset, bit } => {
@@ -683,6 +698,16 @@ struct ReadOutcome<T> {
 
 fn read_as<T: for<'de> Deserialize<'de>>(host: Host, bytes: &[u8], api: Api, plan: &ReaderPlan) -> ReadOutcome<Vec<T>> {
     fn finish<'de, T: Deserialize<'de>, R: serde_json::de::Read<'de>>(host: Host, mut de: serde_json::Deserializer<R>) -> Result<Vec<T>, String> {
+        if host == Host::Stream {
+            let mut out = Vec::new();
+            for item in de.into_iter::<T>() {
+                out.push(item.map_err(|e| e.to_string())?);
+                if out.len() > 64 {
+                    break;
+                }
+            }
+            return Ok(out);
+        }
         let v = host_from::<T, _>(host, &mut de).map_err(|e| e.to_string())?;
         de.end().map_err(|e| e.to_string())?;
         Ok(v)
@@ -721,6 +746,7 @@ fn host_probe(h: Host) -> &'static str {
         Host::VecOf => "json_host_vec",
         Host::MapOf => "json_host_btreemap",
         Host::Tuple => "json_host_tuple",
+        Host::Stream => "json_host_stream",
     }
 }
 
@@ -918,6 +944,11 @@ fn wrap_in_host(r: &mut Rng, host: Host, text: &str, other_text: &str) -> Option
         Host::Tagged => inject(r, "\"kind\":\"Two\""),
         Host::VecOf | Host::Tuple => Some(if r.bool() { format!("[{text},{other_text}]") } else { format!("[{other_text},{text}]") }),
         Host::MapOf => Some(if r.bool() { format!("{{\"a\":{text},\"b\":{other_text}}}") } else { format!("{{\"a\":{other_text},\"b\":{text}}}") }),
+        Host::Stream => Some(match r.below(3) {
+            0 => format!("{text}\n{other_text}\n"),
+            1 => format!("{other_text} {text}"),
+            _ => format!("{other_text}\n{text}\n{other_text}"),
+        }),
     }
 }
 
